@@ -29,7 +29,9 @@ struct Obj
   std::vector<int> window()
   {
     std::vector<int> w;
-    for (size_t k = 0; k < ncells(); ++k) {w.push_back(g(coord(k)));}
+    // read through the const accessor: observing the grid must not be a write access
+    const G & cg = g;
+    for (size_t k = 0; k < ncells(); ++k) {w.push_back(cg(coord(k)));}
     return w;
   }
   std::vector<long long> offset()
